@@ -37,7 +37,7 @@ fn run_bin(bin: &str, query: &str, mode: &str, input: &[u8]) -> Option<(Vec<u8>,
 
 /// queries that route data through every unordered container of the implementation
 fn query(r: &mut Rng) -> (String, &'static str) {
-    match r.below(13) {
+    match r.below(14) {
         0 => ("* | json".into(), "nested-object-key-order"),
         1 => ("* | json | fields o, m, k".into(), "nested-object-key-order"),
         2 => (format!("* | json | {} | where _count > 0", "count by k"), "agg-then-row-operator"),
@@ -49,6 +49,7 @@ fn query(r: &mut Rng) -> (String, &'static str) {
         8 => ("* | json | count_distinct(s), min(x) by k | sort by k".into(), "explicit-sort"),
         9 => ("* | json | sort by n".into(), "raw-sort"),
         10 => ("* | json | count by arr".into(), "array-keys"),
+        12 => ((*r.pick(&["* | json | concat(o, \"\") as c | fields c", "* | json | toUpperCase(o) as c | fields c", "* | json | substring(m, 0, 40) as c | count by c", "* | json | concat(\"<\", o, arr, \">\") as c | count_distinct(c)"])).to_string(), "object-as-text"),
         11 => ((*r.pick(&["* | json | count by big", "* | json | count by big | total(_count) as t", "* | json | count, max(n) by big | limit 3", "* | json | sort by big"])).to_string(), "big-int-keys"),
         _ => (gen::json_pipeline(r, &gen::QueryCfg { allow_agg: true, allow_sort: true, max_stages: 4 }), "generated"),
     }
@@ -147,6 +148,9 @@ fn classify(a: &str, b: &str, mode: &str, q: &str, input: &[u8]) -> &'static str
                 return "C13/nested-object-key-order";
             }
             return "";
+        }
+        if q.contains("concat(") || q.contains("toUpperCase(o)") || q.contains("substring(m") {
+            return "C13/object-display-hash-order";
         }
         // same rows in a different order?
         if let (Some(Some(J::Arr(ra))), Some(Some(J::Arr(rb)))) = (pa.first().cloned(), pb.first().cloned()) {
